@@ -30,6 +30,8 @@ type SchedCase struct {
 	Scripts  [][]SchedOp  `json:"scripts"`
 	Schedule []int        `json:"schedule"`
 	Delays   []SchedDelay `json:"delays,omitempty"`
+	// Indexed: schedule entries are indices into the sorted list of blocked clients
+	Indexed bool `json:"indexed,omitempty"`
 }
 
 // SchedDelay: delayed visibility of tree nodes. The client's GETs of node objects that
@@ -85,6 +87,12 @@ type sched struct {
 	gates   []chan struct{}
 	clock   int
 	stalled bool
+	// indexed: a schedule entry is an index into the sorted list of blocked clients (used
+	// by the exhaustive enumeration); alts records how many clients were blocked at every
+	// decision, chosen the index that was taken
+	indexed bool
+	alts    []int
+	chosen  []int
 }
 
 func newSched(n int) *sched {
@@ -154,7 +162,16 @@ func (s *sched) run(schedule []int) error {
 			return nil
 		}
 		pick := blocked[0]
-		if pos < len(schedule) {
+		if s.indexed {
+			idx := 0
+			if pos < len(schedule) {
+				idx = schedule[pos] % len(blocked)
+				pos++
+			}
+			pick = blocked[idx]
+			s.alts = append(s.alts, len(blocked))
+			s.chosen = append(s.chosen, idx)
+		} else if pos < len(schedule) {
 			want := schedule[pos]
 			pos++
 			for _, b := range blocked {
@@ -198,13 +215,26 @@ func rootLevel(q *fakes3.Req) bool {
 }
 
 func runSched(c SchedCase, o *Obs) error {
+	_, err := runSchedAlts(c, o)
+	return err
+}
+
+// runSchedAlts runs one schedule; it also returns, for indexed schedules, the number of
+// alternatives that existed at every scheduling decision.
+func runSchedAlts(c SchedCase, o *Obs) ([]int, error) {
+	sc := newSched(len(c.Scripts))
+	sc.indexed = c.Indexed
+	err := runSchedOn(c, o, sc)
+	return sc.alts, err
+}
+
+func runSchedOn(c SchedCase, o *Obs, sc *sched) error {
 	n := len(c.Scripts)
 	if n == 0 {
 		return nil
 	}
 	bucket, store := newBucket(nil)
 	defer fakes3.Unregister(bucket)
-	sc := newSched(n)
 	clientOf := func(name string) int {
 		var i int
 		if _, err := fmt.Sscanf(name, "verif://s%d", &i); err != nil {
@@ -594,4 +624,81 @@ func TestC03_Sched(t *testing.T) {
 		"node-object requests pass without yielding (content-addressed, never deleted in these scripts, commute)",
 		"concurrent vacuum is not part of the scripts")
 	checkRapid(t, st, genSchedCase, runSched)
+}
+
+// ---------------------------------------------------------------------------
+// exhaustive mode: ALL interleavings of the version-level requests of a small scenario
+
+type SchedScenario struct {
+	EPN     int         `json:"epn"`
+	Scripts [][]SchedOp `json:"scripts"`
+	Cap     int         `json:"cap"` // stop after this many interleavings (then the scenario is not exhausted)
+}
+
+func genSchedScenario(t *rapid.T) SchedScenario {
+	c := SchedScenario{EPN: rapid.SampledFrom([]int{2, 4096}).Draw(t, "epn"), Cap: 4000}
+	ops := []string{"ins", "ins", "del", "refresh", "roopen"}
+	for ci := 0; ci < 2; ci++ {
+		var script []SchedOp
+		m := rapid.IntRange(1, 2).Draw(t, "nops")
+		if ci == 0 {
+			// the committing writer always writes at least once
+			script = append(script, SchedOp{Op: "ins", Key: 1, Val: 1})
+			m--
+		}
+		for i := 0; i < m; i++ {
+			script = append(script, SchedOp{Op: rapid.SampledFrom(ops).Draw(t, "op"), Key: rapid.IntRange(1, 2).Draw(t, "key"), Val: rapid.IntRange(0, 1).Draw(t, "val")})
+		}
+		c.Scripts = append(c.Scripts, script)
+	}
+	return c
+}
+
+func runSchedExhaustive(c SchedScenario, o *Obs) error {
+	if len(c.Scripts) == 0 {
+		return nil
+	}
+	schedule := []int{}
+	explored := 0
+	for {
+		sub := &Obs{Classes: map[string]int{}, Excluded: map[string]int{}}
+		alts, err := runSchedAlts(SchedCase{EPN: c.EPN, Scripts: c.Scripts, Schedule: schedule, Indexed: true}, sub)
+		explored++
+		if err != nil {
+			return fmt.Errorf("interleaving %d (indexed schedule %v): %v", explored, schedule, err)
+		}
+		if sub.NonTrivial {
+			o.Class("interleaving-with-list-get-window-crossed")
+		}
+		// next interleaving in depth-first order: the choices actually taken, with the last
+		// one that has an untried alternative advanced and everything after it dropped
+		taken := make([]int, len(alts))
+		copy(taken, schedule)
+		i := len(alts) - 1
+		for ; i >= 0; i-- {
+			if taken[i]+1 < alts[i] {
+				break
+			}
+		}
+		if i < 0 {
+			o.Class("scenario-exhausted")
+			o.NonTrivial = true
+			break
+		}
+		schedule = append(append([]int{}, taken[:i]...), taken[i]+1)
+		if explored >= c.Cap && c.Cap > 0 {
+			o.Class("scenario-capped")
+			break
+		}
+	}
+	o.ClassN("interleavings-explored", explored)
+	return nil
+}
+
+func init() { register("TestC03_Exhaustive", runSchedExhaustive) }
+
+func TestC03_Exhaustive(t *testing.T) {
+	st := newStats(t, "C03", "TestC03_Exhaustive", "generated small scenarios (2 clients: a writer with 1-2 operations starting with an INSERT, and a second client with 1-2 operations out of INSERT/DELETE/refresh/read-only open; entries_per_node 2 or 4096); for each scenario EVERY interleaving of the version-level requests (LIST and GET/PUT/DELETE under root/) is executed, depth-first with re-execution (the run reports how many clients were blocked at each decision; the enumerator advances the last decision that has an untried alternative), each under the history oracle of TestC03_Sched; a scenario is exhausted when no decision has an untried alternative (cap 4000 interleavings, capped scenarios are counted); non-trivial = an exhausted scenario")
+	st.Assume = append(st.Assume, "node-object requests pass without yielding (as in TestC03_Sched)")
+	checkRapid(t, st, genSchedScenario, runSchedExhaustive)
 }
